@@ -11,18 +11,29 @@
 //
 // Handles are named by allocation order (3, 4, ...; 1 and 2 are the sentinels in the Lean model), the
 // elements created by PushBackList/PushFrontList are discovered by walking and named in the order the
-// library allocates them.  Handles that were live when Init was called on their list ("stale") and
-// the nil handle are "wild": both libraries leave their behaviour unspecified, the Lean theorems
-// exclude them by hypothesis, so from the first wild call on a case continues two-way only (hive vs
-// container/list) and no further lines are sent to Lean.
+// library allocates them.  Handles that were live when Init was called on their list ("stale") are "wild":
+// the Lean theorems exclude them by hypothesis, so from the first such call on a case continues two-way
+// (hive vs container/list) and no further lines are sent to Lean.  Both libraries run the same splices on the
+// same stale pointers, so the comparison (Len, Front, Back, Values, reverse walk, every handle) goes on through
+// further Init / pushes / stale calls, corrupted rings and negative Len included; a case ends only where the
+// two representations are not the same pointer program or nothing can be observed: a whole-list push over a
+// ring that is not observably a list (it would read the sentinel's value), a walk that never returns to the
+// sentinel, a panic inside the reference, a nil / never-named handle.
+//
+// After the sequential cases the thread-safe flavour gets a concurrent smoke part (stress rounds and forced
+// two-writer schedules behind a parked reader) with its own oracle: no panic, no deadlock, and at quiescence a
+// well-formed ring whose length is Len and whose elements are exactly inserted minus removed.
 package main
 
 import (
 	"container/list"
 	"crypto/sha256"
 	"fmt"
+	"sort"
 	"strconv"
 	"strings"
+	"sync"
+	"sync/atomic"
 	"time"
 
 	"verifharness/hx"
@@ -398,45 +409,67 @@ func (w *world) do(f []string) (res, obs string) {
 	return res, obs
 }
 
-// corrupt reports whether the observable structure is no longer a list: Len, the forward walk and the
-// backward walk disagree, or a walk meets an element that is not a handle (the sentinel).
-func (w *world) corrupt() (bad bool) {
-	if p := hx.Safely(func() {
-		for i := 0; i < 2; i++ {
-			l := w.l[i]
-			var fwd, bwd []any
-			for e := l.Front(); e != nil && len(fwd) < 4096; e = l.Next(e) {
-				fwd = append(fwd, e)
-			}
-			for e := l.Back(); e != nil && len(bwd) < 4096; e = l.Prev(e) {
-				bwd = append(bwd, e)
-			}
-			if l.Len() != len(fwd) || len(fwd) != len(bwd) {
-				bad = true
-
-				return
-			}
-			for j, e := range fwd {
-				if _, ok := w.n[e]; !ok || bwd[len(bwd)-1-j] != e {
-					bad = true
-
-					return
-				}
+// runaway reports a walk that does not come back to the sentinel (a cycle of stale elements): the
+// libraries' own Values()/ForEach would not terminate, nothing can be observed any more.
+func (w *world) runaway() bool {
+	for i := 0; i < 2; i++ {
+		l := w.l[i]
+		n := 0
+		for e := l.Front(); e != nil; e = l.Next(e) {
+			if n++; n > 4096 {
+				return true
 			}
 		}
-	}); p != "" {
-		return true
+		n = 0
+		for e := l.Back(); e != nil; e = l.Prev(e) {
+			if n++; n > 4096 {
+				return true
+			}
+		}
 	}
 
-	return bad
+	return false
+}
+
+// sane reports whether list i is observably a list: Len, the forward walk and the backward walk agree and
+// meet only element handles. Whole-list pushes are compared on a corrupted ring only when source and target
+// are sane: the push reads the *value* of whatever the walk meets and the harness names the new elements by
+// walking, and the sentinel (reachable on a corrupted ring) is where the two libraries' representations differ
+// (nil value pointer vs nil interface) - the only place where they are not the same pointer program.
+func (w *world) sane(i int) (ok bool) {
+	if p := hx.Safely(func() {
+		l := w.l[i]
+		var fwd, bwd []any
+		for e := l.Front(); e != nil && len(fwd) < 4096; e = l.Next(e) {
+			fwd = append(fwd, e)
+		}
+		for e := l.Back(); e != nil && len(bwd) < 4096; e = l.Prev(e) {
+			bwd = append(bwd, e)
+		}
+		if l.Len() != len(fwd) || len(fwd) != len(bwd) {
+			return
+		}
+		for j, e := range fwd {
+			if _, named := w.n[e]; !named || bwd[len(bwd)-1-j] != e {
+				return
+			}
+		}
+		ok = true
+	}); p != "" {
+		return false
+	}
+
+	return ok
 }
 
 // ids of the elements currently in list i (walk, bounded).
 func (w *world) live(i int) []int {
 	var out []int
 	l := w.l[i]
-	for e := l.Front(); e != nil && len(out) < 4096; e = l.Next(e) {
-		out = append(out, w.n[e])
+	for e, n := l.Front(), 0; e != nil && n < 4096; e, n = l.Next(e), n+1 {
+		if id, ok := w.n[e]; ok { // the sentinel (reachable on a corrupted ring) is not a handle
+			out = append(out, id)
+		}
 	}
 
 	return out
@@ -457,7 +490,7 @@ func (t *tracker) kind(id int, l int) string {
 	if id == 0 {
 		return "nil"
 	}
-	if id >= t.std.fresh || id < 3 {
+	if _, named := t.std.h[id]; id >= t.std.fresh || id < 3 || !named {
 		return "unknown"
 	}
 	if t.stale[id] {
@@ -507,6 +540,16 @@ func (t *tracker) before(f []string) {
 	}
 }
 
+func noHandle(kinds []string) bool {
+	for _, k := range kinds {
+		if k == "nil" || k == "unknown" {
+			return true
+		}
+	}
+
+	return false
+}
+
 func isWild(kinds []string) bool {
 	for _, k := range kinds {
 		if k == "stale" || k == "nil" || k == "unknown" {
@@ -540,9 +583,26 @@ func runCase(r *hx.Run, sub uint64, ops []string) {
 			wild = true
 			r.Count("case:went-wild")
 		}
+		if wild && (f[0] == "pbl" || f[0] == "pfl") && !(std.sane(li(f[1])) && std.sane(li(f[2]))) {
+			r.Count("case:stopped-pushlist-on-corrupt-ring")
+
+			break
+		}
+		if noHandle(kinds) {
+			// nil / never-named handles are not part of the property (hive's type assertion panics where
+			// container/list returns early or dereferences nil)
+			r.Count("case:stopped-no-handle")
+
+			break
+		}
 		t.before(f)
 		trail = append(trail, op)
 		sres, sobs := std.do(f)
+		if wild && std.runaway() {
+			r.Count("case:stopped-runaway")
+
+			break
+		}
 		res0, obs0 := h0.do(f)
 		res1, obs1 := h1.do(f)
 		if !wild {
@@ -609,10 +669,10 @@ func runCase(r *hx.Run, sub uint64, ops []string) {
 		if failed {
 			break
 		}
-		if wild && (sres == "panic" || std.corrupt()) {
-			// a stale handle has corrupted the reference's ring (both libraries: same splices on stale pointers);
-			// what follows depends on representation details (the sentinel's value), not on the property
-			r.Count("case:stopped-corrupt")
+		if wild && sres == "panic" {
+			// both libraries panicked inside the same statement of the same splice; the half-done state was
+			// compared above, nothing after it is meaningful
+			r.Count("case:stopped-panic")
 
 			break
 		}
@@ -628,7 +688,14 @@ func runCase(r *hx.Run, sub uint64, ops []string) {
 }
 
 // genCase simulates the history on a private container/list world to know which handles are live.
-func genCase(rng *hx.Rng, n int, wildOK bool) []string {
+// mode 0: never passes a stale handle (three-way throughout); mode 1: occasionally; mode 2: stale-focused
+// (frequent Init, then Remove/Move*/Insert* with handles that were live before it, further Init and pushes).
+func genCase(rng *hx.Rng, n int, mode int) []string {
+	wildOK := mode > 0
+	stalePct, initPct := 20, 2
+	if mode == 2 {
+		stalePct, initPct = 50, 10
+	}
 	std := newStd()
 	t := &tracker{std: std, stale: map[int]bool{}}
 	var ops []string
@@ -645,7 +712,7 @@ func genCase(rng *hx.Rng, n int, wildOK bool) []string {
 			in[x] = true
 		}
 		for id := 3; id < std.fresh; id++ {
-			if in[id] {
+			if _, named := std.h[id]; in[id] || !named {
 				continue
 			}
 			if t.stale[id] {
@@ -656,7 +723,7 @@ func genCase(rng *hx.Rng, n int, wildOK bool) []string {
 		}
 		x := rng.Intn(100)
 		switch {
-		case wildOK && x < 20 && len(stale) > 0:
+		case wildOK && x < stalePct && len(stale) > 0:
 			return hx.Pick(rng, stale)
 		case x < 32 && len(other) > 0:
 			return hx.Pick(rng, other)
@@ -681,7 +748,7 @@ func genCase(rng *hx.Rng, n int, wildOK bool) []string {
 		room := std.l[l].Len() < maxLen
 		v := rng.Intn(50)
 		var op string
-		switch x := rng.Intn(100); {
+		switch x := rng.Intn(98 + initPct); {
 		case x < 9:
 			op = fmt.Sprintf("pf %s %d", L, v)
 		case x < 20:
@@ -715,6 +782,9 @@ func genCase(rng *hx.Rng, n int, wildOK bool) []string {
 		if strings.Contains(op, "-1") {
 			continue // no handle exists yet
 		}
+		if mode == 2 && (f[0] == "pbl" || f[0] == "pfl") && rng.Chance(3, 4) {
+			continue // stale-focused cases end at a whole-list push over a corrupted ring: keep those rare
+		}
 		if !room && (f[0] == "pf" || f[0] == "pb" || f[0] == "ib" || f[0] == "ia" || f[0] == "pbl" || f[0] == "pfl") {
 			continue
 		}
@@ -728,10 +798,259 @@ func genCase(rng *hx.Rng, n int, wildOK bool) []string {
 
 // endregion ///////////////////////////////////////////////////////////////////////////////////////
 
+// region concurrent smoke (thread-safe flavour) ///////////////////////////////////////////////////////
+
+// checkQuiescent: at quiescence the thread-safe list must be a well-formed ring whose length is Len and whose
+// elements are exactly those inserted minus those on which Remove was called (every value is unique).
+func checkQuiescent(r *hx.Run, mode string, l ds.List[int], inserted, removed map[int]bool) {
+	fail := func(what, detail string) {
+		r.Fail("thread-safe-list-concurrent", mode+": "+detail, map[string]string{"part": "concurrent", "mode": mode, "what": what})
+	}
+	var fwd, bwd []int
+	if p := hx.Safely(func() {
+		for e := l.Front(); e != nil && len(fwd) < 1<<20; e = e.Next() {
+			fwd = append(fwd, e.Value())
+		}
+		for e := l.Back(); e != nil && len(bwd) < 1<<20; e = e.Prev() {
+			bwd = append(bwd, e.Value())
+		}
+	}); p != "" {
+		fail("panic", "walking the list at quiescence panicked: "+p)
+
+		return
+	}
+	if len(fwd) != len(bwd) {
+		fail("ring", fmt.Sprintf("forward walk has %d elements, backward walk %d", len(fwd), len(bwd)))
+
+		return
+	}
+	for i := range fwd {
+		if fwd[i] != bwd[len(bwd)-1-i] {
+			fail("ring", fmt.Sprintf("backward walk is not the reverse of the forward walk at %d", i))
+
+			return
+		}
+	}
+	if l.Len() != len(fwd) {
+		fail("len", fmt.Sprintf("Len()=%d but the ring has %d elements", l.Len(), len(fwd)))
+	}
+	if vs := l.Values(); len(vs) != len(fwd) {
+		fail("len", fmt.Sprintf("Values() has %d entries, the ring %d", len(vs), len(fwd)))
+	}
+	var want []int
+	for v := range inserted {
+		if !removed[v] {
+			want = append(want, v)
+		}
+	}
+	got := append([]int(nil), fwd...)
+	sort.Ints(want)
+	sort.Ints(got)
+	if fmt.Sprint(want) != fmt.Sprint(got) {
+		fail("multiset", fmt.Sprintf("elements at quiescence %v, expected inserted minus removed %v", got, want))
+	}
+}
+
+// stressRound: goroutines doing PushBack/InsertAfter/Remove/Move*/reads on a small window of shared handles.
+func stressRound(r *hx.Run, rng *hx.Rng, goroutines, opsEach int) (ops int) {
+	l := ds.NewList[int]()
+	var mu sync.Mutex
+	var pool []ds.ListElement[int]
+	inserted, removed := map[int]bool{}, map[int]bool{}
+	var nextVal atomic.Int64
+	var panics atomic.Int64
+	publish := func(e ds.ListElement[int], v int) {
+		mu.Lock()
+		inserted[v] = true
+		pool = append(pool, e)
+		mu.Unlock()
+	}
+	pick := func(g *hx.Rng) ds.ListElement[int] {
+		mu.Lock()
+		defer mu.Unlock()
+		if len(pool) == 0 {
+			return nil
+		}
+		w := 6
+		if len(pool) < w {
+			w = len(pool)
+		}
+
+		return pool[len(pool)-1-g.Intn(w)]
+	}
+	for i := 0; i < 4; i++ {
+		v := int(nextVal.Add(1))
+		publish(l.PushBack(v), v)
+	}
+	var wg sync.WaitGroup
+	for gi := 0; gi < goroutines; gi++ {
+		g, _ := rng.Fork()
+		wg.Add(1)
+		go func() {
+			defer wg.Done()
+			for k := 0; k < opsEach; k++ {
+				x := g.Intn(100)
+				e, m := pick(g), pick(g)
+				what := ""
+				if p := hx.Safely(func() {
+					switch {
+					case x < 22:
+						what = "PushBack"
+						v := int(nextVal.Add(1))
+						publish(l.PushBack(v), v)
+					case x < 38:
+						what = "InsertAfter"
+						v := int(nextVal.Add(1))
+						if n := l.InsertAfter(v, m); n != nil {
+							publish(n, v)
+						}
+					case x < 66:
+						what = "Remove"
+						v := l.Remove(e)
+						mu.Lock()
+						removed[v] = true
+						mu.Unlock()
+					case x < 76:
+						what = "MoveToFront"
+						l.MoveToFront(e)
+					case x < 82:
+						what = "MoveToBack"
+						l.MoveToBack(e)
+					case x < 88:
+						what = "MoveBefore"
+						l.MoveBefore(e, m)
+					case x < 94:
+						what = "MoveAfter"
+						l.MoveAfter(e, m)
+					default:
+						what = "read"
+						_ = l.Len()
+						_ = l.Values()
+						if f := l.Front(); f != nil {
+							_ = f.Next()
+						}
+					}
+				}); p != "" {
+					if panics.Add(1) <= 3 {
+						r.Fail("thread-safe-list-concurrent", "stress: "+what+" panicked: "+p,
+							map[string]string{"part": "concurrent", "mode": "stress", "what": "panic", "op": what})
+					}
+				}
+			}
+		}()
+	}
+	done := make(chan struct{})
+	go func() { wg.Wait(); close(done) }()
+	select {
+	case <-done:
+	case <-time.After(30 * time.Second):
+		r.Fail("thread-safe-list-concurrent", "stress: goroutines still blocked after 30s",
+			map[string]string{"part": "concurrent", "mode": "stress", "what": "deadlock"})
+
+		return 0
+	}
+	if panics.Load() == 0 {
+		checkQuiescent(r, "stress", l, inserted, removed)
+	}
+
+	return goroutines * opsEach
+}
+
+// forcedPair parks a Range/ForEach callback (holding the read lock), starts two writers on the same handle b
+// of [a b c], lets both reach the mutex, releases the reader, and checks the outcome.
+func forcedPair(r *hx.Run, variant string, useForEach bool) {
+	mode := "forced:" + variant
+	l := ds.NewList[int]()
+	a, b := l.PushBack(1), l.PushBack(2)
+	l.PushBack(3)
+	inserted, removed := map[int]bool{1: true, 2: true, 3: true}, map[int]bool{2: true}
+	parked, release, readerDone := make(chan struct{}), make(chan struct{}), make(chan struct{})
+	go func() {
+		defer close(readerDone)
+		first := true
+		cb := func(int) {
+			if first {
+				first = false
+				close(parked)
+				<-release
+			}
+		}
+		if useForEach {
+			_ = l.ForEach(func(v int) error { cb(v); return nil })
+		} else {
+			l.Range(cb)
+		}
+	}()
+	<-parked
+	var imu sync.Mutex
+	second := func() {
+		switch variant {
+		case "remove-remove":
+			l.Remove(b)
+		case "remove-movetofront":
+			l.MoveToFront(b)
+		case "remove-movebefore":
+			l.MoveBefore(b, a)
+		case "remove-insertafter":
+			if n := l.InsertAfter(4, b); n != nil {
+				imu.Lock()
+				inserted[4] = true
+				imu.Unlock()
+			}
+		}
+	}
+	results := make(chan string, 2)
+	go func() { results <- hx.Safely(func() { l.Remove(b) }) }()
+	go func() { results <- hx.Safely(second) }()
+	time.Sleep(5 * time.Millisecond) // both writers have done whatever they do before Lock() and queue on the mutex
+	close(release)
+	for i := 0; i < 2; i++ {
+		select {
+		case p := <-results:
+			if p != "" {
+				r.Fail("thread-safe-list-concurrent", mode+": a writer panicked: "+p,
+					map[string]string{"part": "concurrent", "mode": mode, "what": "panic"})
+
+				return
+			}
+		case <-time.After(10 * time.Second):
+			r.Fail("thread-safe-list-concurrent", mode+": writers still blocked 10s after the reader was released",
+				map[string]string{"part": "concurrent", "mode": mode, "what": "deadlock"})
+
+			return
+		}
+	}
+	<-readerDone
+	checkQuiescent(r, mode, l, inserted, removed)
+}
+
+func concurrentSmoke(r *hx.Run) {
+	rounds, forced := 40, 6
+	if r.Scale > 1 {
+		rounds, forced = 400, 40
+	}
+	ops := 0
+	for i := 0; i < rounds; i++ {
+		rng, _ := r.Rng.Fork()
+		ops += stressRound(r, rng, 8, 250)
+	}
+	for i := 0; i < forced; i++ {
+		for _, v := range []string{"remove-remove", "remove-movetofront", "remove-movebefore", "remove-insertafter"} {
+			forcedPair(r, v, i%2 == 1)
+			r.Count("conc:forced:" + v)
+		}
+	}
+	r.CountN("conc:stress-rounds", rounds)
+	r.CountN("conc:stress-ops", ops)
+}
+
+// endregion ///////////////////////////////////////////////////////////////////////////////////////
+
 func main() {
 	r := hx.Start()
 	r.Rule = "random histories (40 ops) over two lists of length <= 8, both flavours of each list in every case; handles: " +
-		"live / other list / removed (three-way with Lean), stale-after-Init / nil (two-way vs container/list); " +
+		"live / other list / removed (three-way with Lean), stale-after-Init (two-way vs container/list, every 7th case " +
+		"stale-focused); thread-safe flavour additionally: concurrent stress rounds and forced two-writer schedules; " +
 		"non-trivial = at least 5 distinct op kinds, one call with a removed or foreign handle and one MoveBefore/MoveAfter " +
 		"with two distinct live handles; distinct by sha256 of the op lines"
 	if lines := r.ReplayLines(); lines != nil {
@@ -753,6 +1072,12 @@ func main() {
 		{"pb A 1", "pb A 2", "init A", "pb A 3", "pf A 4", "mvb A 6 5", "init B", "pbl B A"},
 		// a handle that was live before Init (two-way only from here on)
 		{"pb A 1", "pb A 2", "init A", "pb A 3", "rm A 3", "mf A 4", "pb A 5"},
+		// Init must reset len even when the ring is already empty: Remove of a stale handle drives Len to -1 in
+		// both libraries, the second Init brings it back to 0
+		{"pb A 1", "init A", "rm A 3", "init A", "pb A 2", "rm A 4", "pb A 5", "pf A 6"},
+		{"pb A 1", "pb A 2", "init A", "mf A 3", "mb A 4", "init A", "pb A 5", "ia A 6 5", "init A", "init A", "pb A 7"},
+		{"pb A 1", "pb A 2", "pb A 3", "init A", "ib A 9 4", "ia A 8 3", "init A", "pf A 7", "mvb A 5 3", "init A", "pb A 6"},
+		{"pb A 1", "pb B 2", "init A", "init B", "rm A 3", "rm B 4", "init B", "pb B 5", "pbl A B", "init A", "pfl A B"},
 	}
 	for i, c := range corpus {
 		runCase(r, uint64(i), c)
@@ -763,8 +1088,16 @@ func main() {
 	}
 	for i := 0; i < n && deadlocks < 5; i++ {
 		rng, sub := r.Rng.Fork()
-		runCase(r, sub, genCase(rng, 40, i%7 == 6))
+		mode := 0
+		switch i % 7 {
+		case 6:
+			mode = 1
+		case 3:
+			mode = 2
+		}
+		runCase(r, sub, genCase(rng, 40, mode))
 	}
 	r.Extra["deadlocks"] = deadlocks
+	concurrentSmoke(r)
 	r.Finish()
 }
